@@ -288,12 +288,25 @@ func c10Property(t *rapid.T, st *Stats) {
 			var raw []byte
 			var mm *mman
 			salt := map[string]string{"salt": fmt.Sprint(rapid.IntRange(0, 3).Draw(t, "salt"))}
-			kind := rapid.SampledFrom([]string{"image", "image", "index", "artifact"}).Draw(t, "kind")
+			kind := rapid.SampledFrom([]string{"image", "image", "index", "index", "artifact"}).Draw(t, "kind")
 			if kind == "index" {
 				kids := []mdesc{}
 				if ms := sortedKeys(mr.mans); len(ms) > 0 {
+					// prefer children that are indexes themselves: nesting of depth >= 2 is where the child bookkeeping
+					// (rebuilt from blob contents on every reload) has to recurse
+					idxs := []string{}
+					for _, d := range ms {
+						if mr.mans[d].isIndex && len(mr.mans[d].refs) > 0 {
+							idxs = append(idxs, d)
+						}
+					}
 					for i, n := 0, rapid.IntRange(0, 2).Draw(t, "nChildren"); i < n; i++ {
-						c := rapid.SampledFrom(ms).Draw(t, "child")
+						pool := ms
+						if len(idxs) > 0 && rapid.Bool().Draw(t, "nestedChild") {
+							pool = idxs
+							e.class("nested-index-depth>=2")
+						}
+						c := rapid.SampledFrom(pool).Draw(t, "child")
 						kids = append(kids, mdesc{MediaType: mr.mans[c].mt, Digest: c, Size: int64(len(mr.mans[c].raw))})
 					}
 				}
